@@ -178,6 +178,8 @@ func (x *c16World) payloads(url string, rngSeed uint64) []payload {
 		addr, err := c.App.EvmKeeper.DeployUpgradableContract(ctx, c.Users[2].Hex(), fip.Address, nil, &fip.ABI, "Reg token", "REG", uint8(18), c.Users[2].Hex())
 		if err == nil {
 			add("new-erc20", &erc20types.MsgRegisterERC20{Erc20Address: addr.Hex()})
+			// ... and with aliases: a made-up bridge denomination, and the denomination of somebody else's bridged token
+			add("new-erc20-with-alias", &erc20types.MsgRegisterERC20{Erc20Address: addr.Hex(), Aliases: []string{fmt.Sprintf("bsc0x%040x", rng.Uint64())}})
 		}
 	case sdk.MsgTypeURL(&erc20types.MsgToggleTokenConversion{}):
 		add("by-denom", &erc20types.MsgToggleTokenConversion{Token: x.tok.Base})
